@@ -111,6 +111,8 @@ struct World {
 
     // observations
     std::string out;                 // every byte requested through write()
+    bool count_only = false;         // giant transfers: count the bytes instead of storing them (first 32 bytes are still stored)
+    uint64_t counted = 0;
     int flushes = 0;
     std::vector<ErrRec> errs;        // error callback log
     std::vector<int> srq_vals;       // control(SRQ, v) values
